@@ -294,6 +294,7 @@ type printer struct {
 	exportDefaultStart int
 	arrowExprStart     int
 	forOfInitStart     int
+	forInitStart       int
 
 	withNesting          int
 	prevOpEnd            int
@@ -2000,6 +2001,7 @@ const (
 	isCallTargetOrTemplateTag
 	isPropertyAccessTarget
 	parentWasUnaryOrBinaryOrIfTest
+	isIndexTarget
 )
 
 func (p *printer) printExpr(expr js_ast.Expr, level js_ast.L, flags printExprFlags) {
@@ -2620,7 +2622,13 @@ func (p *printer) printExpr(expr js_ast.Expr, level js_ast.L, flags printExprFla
 			}
 			flags &= ^(isNewTarget | hasNonOptionalChainParent)
 		}
-		p.printExpr(e.Target, js_ast.LPostfix, (flags&(isNewTarget|hasNonOptionalChainParent))|isPropertyAccessTarget)
+		targetFlags := (flags & (isNewTarget | hasNonOptionalChainParent)) | isPropertyAccessTarget
+		if e.OptionalChain != js_ast.OptionalChainStart {
+			if _, ok := e.Index.Data.(*js_ast.EPrivateIdentifier); !ok {
+				targetFlags |= isIndexTarget
+			}
+		}
+		p.printExpr(e.Target, js_ast.LPostfix, targetFlags)
 		if e.OptionalChain == js_ast.OptionalChainStart {
 			p.print("?.")
 		}
@@ -3148,6 +3156,13 @@ func (p *printer) printExpr(expr js_ast.Expr, level js_ast.L, flags printExprFla
 		name := p.renamer.NameForSymbol(e.Ref)
 		wrap := len(p.js) == p.forOfInitStart && (name == "let" ||
 			((flags&isFollowedByOf) != 0 && (flags&isInsideForAwait) == 0 && name == "async"))
+
+		// "let[" cannot start an expression statement or a "for" loop initializer
+		if (flags&isIndexTarget) != 0 && name == "let" {
+			if n := len(p.js); n == p.stmtStart || n == p.forInitStart {
+				wrap = true
+			}
+		}
 
 		if wrap {
 			p.print("(")
@@ -3712,6 +3727,7 @@ func (p *printer) printDeclStmt(isExport bool, keyword string, decls []js_ast.De
 func (p *printer) printForLoopInit(init js_ast.Stmt, flags printExprFlags) {
 	switch s := init.Data.(type) {
 	case *js_ast.SExpr:
+		p.forInitStart = len(p.js)
 		p.printExpr(s.Value, js_ast.LLowest, flags|exprResultIsUnused)
 	case *js_ast.SLocal:
 		switch s.Kind {
@@ -4980,6 +4996,7 @@ func Print(tree js_ast.AST, symbols ast.SymbolMap, r renamer.Renamer, options Op
 		exportDefaultStart: -1,
 		arrowExprStart:     -1,
 		forOfInitStart:     -1,
+		forInitStart:       -1,
 
 		prevOpEnd:            -1,
 		needSpaceBeforeDot:   -1,
